@@ -147,7 +147,11 @@ pub fn c01(ctx: &Ctx, st: &mut Stats) {
             0 => tg::nesting_case(&mut r),
             1 => tg::speculation_case(&mut r),
             2 => tg::datalines_case(&mut r),
-            3 => if r.chance(1, 2) { tg::deep_call_case(&mut r) } else { tg::cascade_case(&mut r) },
+            3 => match r.below(3) {
+                0 => tg::deep_call_case(&mut r),
+                1 => tg::cascade_case(&mut r),
+                _ => tg::trivia_run_case(&mut r),
+            },
             4 => {
                 let k = r.below(1 << 20);
                 let b = crate::diffprops::diff_input("C18", r.next_u64(), k, ctx.tier, ctx.corpus);
